@@ -225,6 +225,10 @@ def random_unit(job, variant, pi, seed, length):
     return out
 
 
+def any_unit(kind, args):
+    return random_unit(*args) if kind == "rnd" else exhaustive_unit(*args)
+
+
 def main(ck: Check):
     quick = ck.tier == "quick"
     depth = 4 if quick else 5
@@ -257,9 +261,7 @@ def main(ck: Check):
         reqs.extend(out.get("reqs", []))
         expect.extend(out.get("expect", []))
 
-    for args, out in pmap(random_unit, work_rnd, ck.budget_s * 0.35):
-        absorb(args, out)
-    for args, out in pmap(exhaustive_unit, work_ex, ck.budget_s * 0.45):
+    for args, out in pmap(any_unit, [("rnd", a) for a in work_rnd] + [("ex", a) for a in work_ex], ck.budget_s * 0.8):
         absorb(args, out)
 
     with ck.locked():
